@@ -276,11 +276,16 @@ def main(chk: lib.Check) -> int:
         "empty / missing file, crash at each low-level write of the save, foreign files differing in one field (seed, grid_n, generator, generator kwargs, endpoint options, filters), warm hits; 4 configurations "
         "(3 generators, with/without filters incl. one changing the maze count, full and minimal format). non-trivial = any fault other than 'none'/'absent'; distinct = distinct (config, fault)"
     )
-    r = lib.tlc_design("Cache", "Cache_small.cfg", expect_actions=["Begin", "Exists", "Read", "Gen", "Diff", "Write", "Return", "Crash", "Damage", "Foreign", "Delete"], tag="ca")
+    r = lib.tlc_design("Cache", "Cache_small.cfg", expect_actions=["Begin", "Exists", "Read", "GenData", "Diff", "Write", "Return", "Crash", "Damage", "Foreign", "Delete"], tag="ca")
     chk.add_model("Cache/small", r, "2 configs, W = 3 writes, <= 3 requests, <= 3 faults, every interleaving")
     lib.tlc_expect_violation("Cache", "Cache_nodiff.cfg", "NeverWrongData", tag="ca1")
     lib.tlc_expect_violation("Cache", "Cache_noswallow.cfg", "NoReadError", tag="ca2")
     chk.notes["broken_designs_rejected"] = ["no config diff check after loading", "read errors not swallowed"]
+    # unbounded in the number of requests and faults: the C11 invariants as an inductive invariant (Apalache, symbolic)
+    apa = lib.apalache_inductive("MC_Cache", ["Cache.tla"], broken_sub=("CheckDiff == TRUE", "CheckDiff == FALSE"))
+    chk.notes["apalache_inductive_invariant"] = apa
+    if apa.get("available"):
+        chk.models.append(dict(model="Cache/Apalache inductive", what="TypeOK /\\ Strengthening /\\ NeverWrongData /\\ LoadableAfter /\\ NoReadError is inductive: holds for any number of requests and faults", obligations=apa["obligations"]))
     rng = np.random.default_rng([chk.seed, 11])
     jobs = []
     for spec in CONFIGS:
